@@ -42,11 +42,24 @@ func newCipherGeneric(key []byte) (cipher.Block, error) {
 	return &sm4, nil
 }
 
+// checkBlock panics, like crypto/aes does, when a buffer is shorter than one block: slicing up to
+// BlockSize alone would silently succeed whenever the capacity (not the length) is large enough
+func checkBlock(dst, src []byte) {
+	if len(src) < BlockSize {
+		panic("crypto/sm4: input not full block")
+	}
+	if len(dst) < BlockSize {
+		panic("crypto/sm4: output not full block")
+	}
+}
+
 func (sm4 *sm4Cipher) Encrypt(dst, src []byte) {
+	checkBlock(dst, src)
 	cryptoBlock(src[:BlockSize], dst[:BlockSize], &sm4.enc)
 }
 
 func (sm4 *sm4Cipher) Decrypt(dst, src []byte) {
+	checkBlock(dst, src)
 	cryptoBlock(src[:BlockSize], dst[:BlockSize], &sm4.dec)
 }
 
